@@ -125,6 +125,15 @@ func NewWorld(seed int64, maxBlocks int) (*World, *rand.Rand) {
 	return w, r
 }
 
+// NewWorldOf: a world over a DAG built by the caller (directed shapes, e.g. dag.GenTwin).
+func NewWorldOf(d *dag.DAG) *World {
+	w := &World{D: d, names: map[cid.Cid]int{}}
+	for i, c := range d.Cids {
+		w.names[c] = i
+	}
+	return w
+}
+
 func (w *World) Name(c cid.Cid) string {
 	if i, ok := w.names[c]; ok {
 		return strconv.Itoa(i)
